@@ -11,6 +11,7 @@
 #include <deque>
 #include <unordered_map>
 
+static time_t g_T0 = 1000000; // base of the virtual clock (the 'epoch2039' sub-passes set it beyond 2^31)
 static time_t g_now = 1000000;
 extern "C" time_t time(time_t *t){ if(t) *t=g_now; return g_now; }
 
@@ -24,7 +25,7 @@ static booster::intrusive_ptr<cppcms::impl::base_cache> make_cache(const Config 
 struct RunResult { bool ok; std::string canon; std::string what; std::string sig; std::vector<std::string> trace; };
 static std::string hist_str(const Config &c,const std::vector<int> &h){ std::string s; for(size_t i=0;i<h.size();i++){ if(i) s+=" ; "; s+=c.ops[h[i]].str(); } return s; }
 // replay history h on the real cache with the model in lock-step; audit at the end
-static RunResult run_history(const Config &c,const std::vector<int> &h,bool want_trace=false){ RunResult r; r.ok=true; g_now=1000000; bool reused; booster::intrusive_ptr<cppcms::impl::base_cache> cache=make_cache(c,reused);
+static RunResult run_history(const Config &c,const std::vector<int> &h,bool want_trace=false){ RunResult r; r.ok=true; g_now=g_T0; bool reused; booster::intrusive_ptr<cppcms::impl::base_cache> cache=make_cache(c,reused);
 	cm::Model M(c.limit,g_now); cm::Real<cppcms::impl::base_cache> R(*cache); R.payload_pad=c.pad;
 	if(reused){ cache->clear(); unsigned k=1,t=1; cache->stats(k,t); if(k||t){ r.ok=false; r.sig="clear-postcondition"; r.what="clear() leaves keys="+std::to_string(k)+" triggers="+std::to_string(t); return r; } for(size_t i=0;i<c.keys.size();i++){ std::string v; if(cache->fetch(c.keys[i],&v,0,0,0)){ r.ok=false; r.sig="clear-postcondition"; r.what="clear() leaves "+c.keys[i]+" fetchable"; return r; } } }
 	auto do_op=[&](const Op &op,const char *phase)->bool{ if(op.k==Op::STORE&&c.limit){ const cm::MState &m0=*M.S.begin(); if(m0.find(op.key)<0&&m0.e.size()>=c.limit){ vf::guard("evictions"); bool exp=false; for(size_t q=0;q<m0.e.size();q++) if(m0.e[q].deadline<g_now) exp=true; if(exp) vf::guard("evictions_with_expired_entry_present"); } }
